@@ -195,7 +195,9 @@ def eval_case(case):
         R[k] = R.get(k, 0) + n
 
     with common.Scratch("cv05") as sc:
-        tasks = [gen.mk_task("", "e1", "run_experiment"), gen.mk_task("x", "e2", "run_experiment", ["//:e1"]), gen.mk_task("", "c", "run_command", ["//x:e2", "//:e1"])]
+        tasks = [gen.mk_task("", "e1", "run_experiment"), gen.mk_task("x", "e2", "run_experiment", ["//:e1"]), gen.mk_task("", "c", "run_command", ["//x:e2", "//:e1"]),
+                 # the same experiments reached ONLY through (nested) groups
+                 gen.mk_task("x", "gg", "group", ["//x:e2", "//:e1"]), gen.mk_task("", "top", "group", ["//x:gg"])]
         scripts = {t["id"]: {"steps": [["file", "o.txt", realrun.b64(b"x")]]} for t in tasks}
         gm = case["git_mode"]
         pr = realrun.Project(sc.root, tasks, scripts, disable_git=(gm == "disabled"), hostile=case.get("hostile"))
@@ -341,7 +343,8 @@ def eval_case(case):
                 log.append(["where", tid, r.code])
                 continue
             # ---- run-like observations
-            argv = ["run", "//:c"]
+            run_target = rng.choice(["//:c", "//:c", "//:top"])
+            argv = ["run", run_target]
             at = None
             expect_err = None
             if kind == "again":
@@ -442,6 +445,8 @@ def eval_case(case):
                 out["violations"].append({"key": "C05:valid-invocation-rejected", "msg": "cond %s failed: %s" % (" ".join(argv), r.err[-300:]), "witness": W})
                 break
             got_run = sorted(t for t in started if t != "//:c")
+            if run_target == "//:top":
+                bump("c05_run_checks_through_groups")
             if got_run != sorted(exp_run):
                 extra = sorted(set(got_run) - set(exp_run))
                 missing = sorted(set(exp_run) - set(got_run))
